@@ -1,6 +1,602 @@
 package pager
 
+import (
+	"fmt"
+	"syscall"
+
+	"github.com/superfly/litefs/verif/mount"
+	"github.com/superfly/litefs/verif/ref"
+)
+
+// WAL lock bytes on the shared-memory file.
+const (
+	WalWrite   = 120
+	WalCkpt    = 121
+	WalRecover = 122
+	WalRead0   = 123
+	WalDMS     = 128
+)
+
+const notUsed = 0xffffffff
+
 // WalIndex is the model's wal-index (what SQLite keeps in shared memory).
 type WalIndex struct {
-	Exists bool
+	Init      bool      // the wal-index header has been initialised (recovery ran)
+	BE        bool      // big-endian checksums
+	Seq       uint32    // checkpoint sequence number
+	Salt1     uint32    // salts of the current log generation
+	Salt2     uint32    //
+	MxFrame   int       // frames committed in the current generation
+	NBackfill int       // frames already copied into the database file
+	Ck1, Ck2  uint32    // running checksum after frame MxFrame
+	Frames    []walRec  // the committed frames of the current generation
+	ReadMark  [5]uint32 // reader marks
+	Phys      int       // frames physically present in the file (incl. uncommitted leftovers), informational
 }
+
+type walRec struct {
+	Pgno   uint32
+	Commit uint32
+	Data   []byte
+}
+
+// WalTx is an abstract WAL-mode write transaction.
+type WalTx struct {
+	Tx
+	SpillFrames int  `json:"spillframes,omitempty"` // number of frames written (uncommitted) before the commit batch
+	Repeat      int  `json:"repeat,omitempty"`      // that many pages get a second frame in the same transaction
+	Tail        int  `json:"tail,omitempty"`        // NoWrite only: append that many uncommitted frames before releasing the lock
+	BEChecksum  bool `json:"be,omitempty"`          // used when this transaction writes a log header
+}
+
+func (c *Conn) walName() string { return c.DB.Name + "-wal" }
+func (c *Conn) shmName() string { return c.DB.Name + "-shm" }
+
+// shmLock takes (or releases) a lock on bytes [120+ofst, 120+ofst+n) of the SHM file.
+func (c *Conn) shmLock(typ int, start, n uint64) error {
+	kind := map[int]string{0: "U", 1: "S", 2: "X"}[typ]
+	c.op("shm %s %d..%d", kind, start, start+n-1)
+	var err error
+	switch typ {
+	case 0:
+		err = c.shmf.SetLk(mount.UnLck, start, start+n-1)
+	case 1:
+		err = c.shmf.SetLk(mount.RdLck, start, start+n-1)
+	default:
+		err = c.shmf.SetLk(mount.WrLck, start, start+n-1)
+	}
+	if err != nil {
+		if mount.Errno(err) == syscall.EAGAIN {
+			return ErrBusy
+		}
+		return opErr("shm lock", err)
+	}
+	return nil
+}
+
+// OpenWAL brings the connection into WAL mode: SHARED lock on the database
+// file (kept for the life of the connection), the -wal and -shm files opened
+// or created, the dead-man-switch dance, and wal-index recovery by the first
+// opener.
+func (c *Conn) OpenWAL() error {
+	if c.shmf != nil {
+		return nil
+	}
+	if err := c.Lock(LockShared); err != nil {
+		return err
+	}
+	var err error
+	c.op("open wal")
+	if c.walf, _, err = c.M.OpenOrCreate(c.Owner, c.walName()); err != nil {
+		return opErr("open wal", err)
+	}
+	c.op("open shm")
+	if c.shmf, _, err = c.M.OpenOrCreate(c.Owner, c.shmName()); err != nil {
+		return opErr("open shm", err)
+	}
+	// unixLockSharedMemory
+	lt, err := c.shmf.GetLk(mount.WrLck, WalDMS, WalDMS)
+	if err != nil {
+		return opErr("getlk dms", err)
+	}
+	first := false
+	if lt == mount.UnLck {
+		if err := c.shmLock(2, WalDMS, 1); err != nil {
+			return err
+		}
+		c.op("truncate shm 3")
+		if err := c.shmf.Truncate(3); err != nil {
+			return opErr("truncate shm", err)
+		}
+		first = true
+	} else if lt == mount.WrLck {
+		return ErrBusy
+	}
+	if err := c.shmLock(1, WalDMS, 1); err != nil {
+		return err
+	}
+	// unixShmMap: extend the file to one 32 KiB region with single-byte writes.
+	if sz, _ := c.shmf.Size(); sz < 32768 {
+		for off := (sz / 4096) * 4096; off < 32768; off += 4096 {
+			c.op("extend shm @%d", off+4095)
+			if err := c.shmf.WriteAt([]byte{0}, off+4095); err != nil {
+				return opErr("extend shm", err)
+			}
+		}
+	}
+	w := &c.DB.Wal
+	if first || !w.Init {
+		// walIndexRecover
+		if err := c.shmLock(2, WalWrite, 1); err != nil {
+			return err
+		}
+		if err := c.shmLock(2, WalCkpt, 2); err != nil {
+			_ = c.shmLock(0, WalWrite, 1)
+			return err
+		}
+		for i := uint64(1); i <= 4; i++ {
+			if err := c.shmLock(2, WalRead0+i, 1); err == nil {
+				_ = c.shmLock(0, WalRead0+i, 1)
+			}
+		}
+		c.recoverIndex()
+		_ = c.shmLock(0, WalCkpt, 2)
+		_ = c.shmLock(0, WalWrite, 1)
+	}
+	return nil
+}
+
+// recoverIndex rebuilds the model's wal-index from the WAL file as
+// walIndexRecover does.
+func (c *Conn) recoverIndex() {
+	w := &c.DB.Wal
+	raw, _ := c.readWholeFile(c.walf)
+	scan := ref.WALScan(raw)
+	*w = WalIndex{Init: true, ReadMark: [5]uint32{0, notUsed, notUsed, notUsed, notUsed}}
+	if !scan.HeaderOK || scan.LastCommit == 0 {
+		return
+	}
+	w.BE, w.Salt1, w.Salt2 = scan.BigEndian, scan.Salt1, scan.Salt2
+	for _, f := range scan.Valid[:scan.LastCommit] {
+		w.Frames = append(w.Frames, walRec{f.Pgno, f.Commit, f.Data})
+	}
+	w.MxFrame = scan.LastCommit
+	// running checksum at the last commit frame
+	c1, c2 := ref.WALChecksum(w.BE, 0, 0, raw[:24])
+	for _, f := range scan.Valid[:scan.LastCommit] {
+		_, c1, c2 = ref.WALFrameHeader(w.BE, f.Pgno, f.Commit, w.Salt1, w.Salt2, c1, c2, f.Data)
+	}
+	w.Ck1, w.Ck2 = c1, c2
+	w.ReadMark[1] = uint32(w.MxFrame)
+}
+
+func (c *Conn) readWholeFile(f *mount.File) ([]byte, error) {
+	sz, err := f.Size()
+	if err != nil {
+		return nil, err
+	}
+	buf := make([]byte, sz)
+	n, err := f.ReadAt(buf, 0)
+	return buf[:n], err
+}
+
+// syncWithLiteFS notices what a real connection would learn from the
+// wal-index header LiteFS rewrites: if LiteFS checkpointed and emptied the
+// log on its own, the model's index is reset.
+func (c *Conn) syncWithLiteFS() {
+	w := &c.DB.Wal
+	if w.MxFrame == 0 {
+		return
+	}
+	if sz, err := c.walf.Size(); err == nil && sz == 0 {
+		w.MxFrame, w.NBackfill, w.Frames, w.Phys = 0, 0, nil, 0
+		w.ReadMark = [5]uint32{0, notUsed, notUsed, notUsed, notUsed}
+	}
+}
+
+// beginRead takes the read lock a transaction needs (walTryBeginRead).
+func (c *Conn) beginRead(useWal bool) error {
+	w := &c.DB.Wal
+	if !useWal && w.NBackfill == w.MxFrame {
+		if err := c.shmLock(1, WalRead0, 1); err != nil {
+			return err
+		}
+		c.readSlot = 0
+		return nil
+	}
+	// find a slot whose mark equals mxFrame, else claim one
+	best := -1
+	for i := 1; i <= 4; i++ {
+		if w.ReadMark[i] == uint32(w.MxFrame) {
+			best = i
+			break
+		}
+	}
+	if best < 0 {
+		for i := 1; i <= 4; i++ {
+			if err := c.shmLock(2, WalRead0+uint64(i), 1); err == nil {
+				w.ReadMark[i] = uint32(w.MxFrame)
+				_ = c.shmLock(0, WalRead0+uint64(i), 1)
+				best = i
+				break
+			} else if err != ErrBusy {
+				return err
+			}
+		}
+	}
+	if best < 0 {
+		return ErrBusy
+	}
+	if err := c.shmLock(1, WalRead0+uint64(best), 1); err != nil {
+		return err
+	}
+	c.readSlot = best
+	return nil
+}
+
+func (c *Conn) endRead() {
+	if c.readSlot >= 0 && c.shmf != nil {
+		_ = c.shmLock(0, WalRead0+uint64(c.readSlot), 1)
+	}
+	c.readSlot = -1
+}
+
+func (db *DBModel) newSalt() uint32 {
+	db.nextSalt = db.nextSalt*1664525 + 1013904223
+	return db.nextSalt | 1
+}
+
+func (c *Conn) frameSize() int64 { return 24 + int64(c.DB.PageSize) }
+
+// appendFrame writes one frame at the given index with the running checksum.
+func (c *Conn) appendFrame(idx int, pgno, commit uint32, data []byte, c1, c2 uint32) (uint32, uint32, error) {
+	w := &c.DB.Wal
+	hdr, n1, n2 := ref.WALFrameHeader(w.BE, pgno, commit, w.Salt1, w.Salt2, c1, c2, data)
+	off := 32 + int64(idx)*c.frameSize()
+	c.op("write wal frame %d hdr pgno=%d commit=%d @%d", idx+1, pgno, commit, off)
+	if err := c.walf.WriteAt(hdr, off); err != nil {
+		return 0, 0, opErr("write wal frame header", err)
+	}
+	c.op("write wal frame %d data", idx+1)
+	if err := c.walf.WriteAt(data, off+24); err != nil {
+		return 0, 0, opErr("write wal frame data", err)
+	}
+	if idx+1 > w.Phys {
+		w.Phys = idx + 1
+	}
+	return n1, n2, nil
+}
+
+// ExecWALTx runs one write transaction in WAL mode. The capture point for
+// LiteFS is the release of the WRITE lock at the end.
+func (c *Conn) ExecWALTx(tx WalTx) (res TxResult, err error) {
+	db := c.DB
+	w := &db.Wal
+	res.Image = db.Img
+	if err = c.OpenWAL(); err != nil {
+		return res, err
+	}
+	c.syncWithLiteFS()
+	if err = c.beginRead(false); err != nil {
+		return res, err
+	}
+	defer c.endRead()
+	if err = c.shmLock(2, WalWrite, 1); err != nil {
+		return res, err
+	}
+	unlocked := false
+	unlockWrite := func() error {
+		if unlocked {
+			return nil
+		}
+		unlocked = true
+		return c.shmLock(0, WalWrite, 1)
+	}
+	defer func() { _ = unlockWrite() }()
+
+	// walRestartLog
+	if w.MxFrame > 0 && w.NBackfill == w.MxFrame && !(tx.NoWrite && tx.Tail == 0) {
+		if e := c.shmLock(2, WalRead0+1, 4); e == nil {
+			w.Seq++
+			w.Salt1++
+			w.Salt2 = db.newSalt()
+			w.MxFrame, w.NBackfill, w.Frames = 0, 0, nil
+			w.ReadMark = [5]uint32{0, 0, notUsed, notUsed, notUsed}
+			_ = c.shmLock(0, WalRead0+1, 4)
+			res.Restarted = true
+		} else if e != ErrBusy {
+			return res, e
+		}
+		// the writer always ends up on a real reader slot
+		c.endRead()
+		if err = c.beginRead(true); err != nil {
+			return res, err
+		}
+	}
+
+	if tx.NoWrite && tx.Tail == 0 {
+		return res, unlockWrite()
+	}
+
+	newImg, dirty := db.buildImage(db.Img, tx.Tx, ref.ModeWAL)
+	res.Pages = len(dirty)
+
+	idx := w.MxFrame
+	c1, c2 := w.Ck1, w.Ck2
+	if idx == 0 {
+		if w.Salt1 == 0 && w.Salt2 == 0 {
+			w.Salt1, w.Salt2 = db.newSalt(), db.newSalt()
+		}
+		w.BE = tx.BEChecksum
+		hdr := ref.WALHeader(w.BE, db.PageSize, w.Seq, w.Salt1, w.Salt2)
+		c.op("write wal header salt=%08x/%08x", w.Salt1, w.Salt2)
+		if e := c.walf.WriteAt(hdr, 0); e != nil {
+			return res, opErr("write wal header", e)
+		}
+		if c.Sync != SyncOff {
+			c.op("fsync wal")
+			if e := c.walf.Sync(); e != nil {
+				return res, opErr("fsync wal", e)
+			}
+		}
+		c1, c2 = ref.WALChecksum(w.BE, 0, 0, hdr[:24])
+		res.WroteHeader = true
+	}
+
+	// Frames: the listed pages in ascending order (the dirty list is sorted),
+	// page 1 included; some frames first as an uncommitted spill, repeated
+	// pages a second time, the last frame carries the commit size.
+	var pgs []uint32
+	for p := range dirty {
+		pgs = append(pgs, p)
+	}
+	sortU32(pgs)
+	var seq []uint32
+	if tx.NoWrite { // only an uncommitted tail
+		for i := 0; i < tx.Tail; i++ {
+			seq = append(seq, pgs[i%len(pgs)])
+		}
+	} else {
+		if tx.SpillFrames > 0 {
+			for i := 0; i < tx.SpillFrames && i < len(pgs); i++ {
+				if pgs[i] != 1 {
+					seq = append(seq, pgs[i])
+				}
+			}
+			res.Spilled = 1
+		}
+		seq = append(seq, pgs...)
+		for i := 0; i < tx.Repeat && i < len(pgs); i++ {
+			seq = append(seq, pgs[len(pgs)-1-i])
+		}
+	}
+	var recs []walRec
+	for i, p := range seq {
+		commit := uint32(0)
+		if i == len(seq)-1 && !tx.Rollback && !tx.NoWrite {
+			commit = newImg.N()
+		}
+		data := newImg.Page(p)
+		if c1, c2, err = c.appendFrame(idx, p, commit, data, c1, c2); err != nil {
+			return res, err
+		}
+		recs = append(recs, walRec{p, commit, data})
+		idx++
+	}
+	res.Frames = len(seq)
+	if tx.Rollback || tx.NoWrite {
+		res.RolledBack = tx.Rollback
+		// frames stay in the file beyond mxFrame; the next writer overwrites them
+		return res, unlockWrite()
+	}
+	if c.Sync == SyncFull {
+		c.op("fsync wal")
+		if e := c.walf.Sync(); e != nil {
+			return res, opErr("fsync wal", e)
+		}
+	}
+	// committed in SQLite's eyes: update the wal-index
+	w.Frames = append(w.Frames, recs...)
+	w.MxFrame, w.Ck1, w.Ck2 = idx, c1, c2
+	db.Img, db.Change, db.Mode = newImg, db.Change+1, ref.ModeWAL
+	res.Image = newImg
+	if err = unlockWrite(); err != nil {
+		return res, err
+	}
+	res.Committed = true
+	return res, nil
+}
+
+// Checkpoint kinds.
+const (
+	CkptPassive  = 0
+	CkptFull     = 1
+	CkptRestart  = 2
+	CkptTruncate = 3
+)
+
+// CkptResult reports what a checkpoint did.
+type CkptResult struct {
+	Backfilled int  // frames copied
+	Complete   bool // everything in the log is now in the database file
+	Reset      bool // the log was restarted (RESTART/TRUNCATE)
+	Busy       bool
+}
+
+// Checkpoint runs an application checkpoint as sqlite3WalCheckpoint does.
+func (c *Conn) Checkpoint(kind int) (res CkptResult, err error) {
+	db := c.DB
+	w := &db.Wal
+	if err = c.OpenWAL(); err != nil {
+		return res, err
+	}
+	c.syncWithLiteFS()
+	if err = c.shmLock(2, WalCkpt, 1); err != nil {
+		if err == ErrBusy {
+			res.Busy = true
+			return res, nil
+		}
+		return res, err
+	}
+	defer func() { _ = c.shmLock(0, WalCkpt, 1) }()
+	haveWrite := false
+	if kind != CkptPassive {
+		if e := c.shmLock(2, WalWrite, 1); e == nil {
+			haveWrite = true
+			defer func() { _ = c.shmLock(0, WalWrite, 1) }()
+		} else if e == ErrBusy {
+			res.Busy = true
+			kind = CkptPassive
+		} else {
+			return res, e
+		}
+	}
+
+	// walCheckpoint
+	mxSafe := w.MxFrame
+	for i := 1; i <= 4; i++ {
+		if int64(w.ReadMark[i]) < int64(mxSafe) {
+			if e := c.shmLock(2, WalRead0+uint64(i), 1); e == nil {
+				if i == 1 {
+					w.ReadMark[i] = uint32(mxSafe)
+				} else {
+					w.ReadMark[i] = notUsed
+				}
+				_ = c.shmLock(0, WalRead0+uint64(i), 1)
+			} else if e == ErrBusy {
+				mxSafe = int(w.ReadMark[i])
+				res.Busy = true
+			} else {
+				return res, e
+			}
+		}
+	}
+	if w.NBackfill < mxSafe {
+		if e := c.shmLock(2, WalRead0, 1); e == nil {
+			if c.Sync != SyncOff {
+				c.op("fsync wal")
+				if e := c.walf.Sync(); e != nil {
+					return res, opErr("fsync wal", e)
+				}
+			}
+			// latest version <= mxSafe of each page that has a frame in (nBackfill, mxSafe]
+			latest := map[uint32]int{}
+			var size uint32
+			for i := 0; i < mxSafe; i++ {
+				latest[w.Frames[i].Pgno] = i
+				if w.Frames[i].Commit != 0 {
+					size = w.Frames[i].Commit
+				}
+			}
+			var pgs []uint32
+			for p, i := range latest {
+				if i >= w.NBackfill && p <= size {
+					pgs = append(pgs, p)
+				}
+			}
+			sortU32(pgs)
+			ps := int64(db.PageSize)
+			for _, p := range pgs {
+				c.op("write db page %d (checkpoint)", p)
+				if e := c.dbf.WriteAt(w.Frames[latest[p]].Data, int64(p-1)*ps); e != nil {
+					_ = c.shmLock(0, WalRead0, 1)
+					return res, opErr("checkpoint write", e)
+				}
+			}
+			if mxSafe == w.MxFrame {
+				c.op("truncate db %d pages (checkpoint)", size)
+				if e := c.dbf.Truncate(int64(size) * ps); e != nil {
+					_ = c.shmLock(0, WalRead0, 1)
+					return res, opErr("checkpoint truncate", e)
+				}
+				if c.Sync != SyncOff {
+					c.op("fsync db")
+					_ = c.dbf.Sync()
+				}
+			}
+			res.Backfilled = mxSafe - w.NBackfill
+			w.NBackfill = mxSafe
+			_ = c.shmLock(0, WalRead0, 1)
+		} else if e == ErrBusy {
+			res.Busy = true
+		} else {
+			return res, e
+		}
+	}
+	res.Complete = w.NBackfill == w.MxFrame
+	if kind >= CkptRestart && haveWrite && res.Complete && w.MxFrame > 0 {
+		if e := c.shmLock(2, WalRead0+1, 4); e == nil {
+			w.Seq++
+			w.Salt1++
+			w.Salt2 = db.newSalt()
+			w.MxFrame, w.NBackfill, w.Frames = 0, 0, nil
+			w.ReadMark = [5]uint32{0, 0, notUsed, notUsed, notUsed}
+			res.Reset = true
+			if kind == CkptTruncate {
+				c.op("truncate wal 0")
+				if e := c.walf.Truncate(0); e != nil {
+					_ = c.shmLock(0, WalRead0+1, 4)
+					return res, opErr("truncate wal", e)
+				}
+				w.Phys = 0
+			}
+			_ = c.shmLock(0, WalRead0+1, 4)
+		} else if e == ErrBusy {
+			res.Busy = true
+		} else {
+			return res, e
+		}
+	}
+	return res, nil
+}
+
+// ReadImageWAL reads the database as a WAL-mode reader sees it: under a read
+// lock, the database file overlaid with the committed frames of the log, both
+// read through the mount.
+func (c *Conn) ReadImageWAL() (*ref.Image, error) {
+	if err := c.OpenWAL(); err != nil {
+		return nil, err
+	}
+	c.syncWithLiteFS()
+	if err := c.beginRead(false); err != nil {
+		return nil, err
+	}
+	defer c.endRead()
+	base, err := ReadFileImage(c.dbf, c.DB.PageSize)
+	if err != nil {
+		return nil, err
+	}
+	raw, err := c.readWholeFile(c.walf)
+	if err != nil {
+		return nil, opErr("read wal", err)
+	}
+	scan := ref.WALScan(raw)
+	if scan.HeaderOK && scan.LastCommit > 0 {
+		if scan.PageSize != c.DB.PageSize {
+			return nil, fmt.Errorf("wal page size %d != database page size %d", scan.PageSize, c.DB.PageSize)
+		}
+		return scan.Overlay(base), nil
+	}
+	return base, nil
+}
+
+// SwitchToWAL runs the rollback-journal transaction that PRAGMA
+// journal_mode=WAL issues: page 1 is rewritten with the WAL read/write
+// version. On a database that does not exist yet it also creates it.
+func (c *Conn) SwitchToWAL(tx Tx) (TxResult, error) {
+	c.DB.pendingMode = ref.ModeWAL
+	defer func() { c.DB.pendingMode = 0 }()
+	saved := c.JournalMode
+	c.JournalMode = Delete
+	defer func() { c.JournalMode = saved }()
+	return c.ExecRollbackTx(tx)
+}
+
+// BeginRead starts a read transaction and keeps its read lock until EndRead.
+func (c *Conn) BeginRead() error {
+	c.syncWithLiteFS()
+	return c.beginRead(false)
+}
+
+// EndRead ends the read transaction started by BeginRead.
+func (c *Conn) EndRead() { c.endRead() }
